@@ -23,6 +23,7 @@ type Gate interface {
 }
 
 type gateImpl struct {
+	initialCount  uint16
 	count         uint16
 	arrived       uint16
 	gateCondition *sync.Cond
@@ -121,11 +122,13 @@ func (g *gateImpl) Clear() {
 	g.canceled = false
 	g.arrived = 0
 	g.err = nil
+	g.count = g.initialCount
 }
 
 // NewGate returns new gate instance.
 func NewGate(count uint16) Gate {
 	return &gateImpl{
+		initialCount:  count,
 		count:         count,
 		gateCondition: sync.NewCond(&sync.Mutex{}),
 	}
